@@ -52,20 +52,35 @@ def as_found_models(wd):
                       workers=4, xmx="4g", timeout=900)
     expect("DotChainMC: some chain is laid out broken at its dots (probe violated)",
            (not r["ok"]) and "ProbeNeverBroken is violated" in r["out"])
+    dot2 = beh.DOT_CFG % (7, 2, 2, 0, '"x"', "0", "0, 20, 40", 2, "FALSE", "InvConvergence")
+    r = C.model_check("DotChainMC", dot2 + "CONSTANT AsFoundChain <- AsFoundF27\n", os.path.join(wd, "af-dot-f27"), workers=4, xmx="4g", timeout=900)
+    expect("DotChainMC with F27 as found (attached comments not spaced) violates InvConvergence",
+           (not r["ok"]) and "Invariant InvConvergence is violated" in r["out"])
     cm = beh.COMMENT_CFG % (2, "0, 1, 3, 6", 16, 2, "FALSE", "InvConvergence")
     r = C.model_check("CommentMC", cm.replace("AsFoundC = {}", 'AsFoundC = {"S03A"}'), os.path.join(wd, "af-cmt"),
                       workers=4, xmx="4g", timeout=900)
     expect("CommentMC counting whitespace-only lines in the common indentation violates InvConvergence",
            (not r["ok"]) and "Invariant InvConvergence is violated" in r["out"])
+    for sw in ("FirstIdent", "KeyName"):
+        im = beh.IMPORT_CFG % ('"a", "b", "ma"', 2, 0, 0, "0, 40", 2, "FALSE", "InvAll")
+        r = C.model_check("ImportMC", im.replace("AsFoundI = {}", 'AsFoundI = {"%s"}' % sw), os.path.join(wd, "af-imp-" + sw),
+                          workers=4, xmx="4g", timeout=900)
+        expect("ImportMC with the bound name taken as %s violates InvAll (guard)" % sw,
+               (not r["ok"]) and "Invariant InvAll is violated" in r["out"])
     cfg = beh.MATHDELIM_CFG % (5, 2, 24, 2, "FALSE", "FALSE", "InvLineFeedsKept")
     r = C.model_check("MathDelimMC", cfg, os.path.join(wd, "af-mathdelim"), workers=4, xmx="4g", timeout=900)
     expect("MathDelimMC[inline] exhibits the recorded defect G07 (InvLineFeedsKept violated)",
            (not r["ok"]) and "InvLineFeedsKept is violated" in r["out"])
     for rf, rc, what in [("FALSE", "TRUE", "F03 format-all dot root"), ("TRUE", "FALSE", "F05 read failure not counted")]:
         cfg = ("SPECIFICATION Spec\nINVARIANTS TypeOK Contract\nCHECK_DEADLOCK FALSE\nCONSTANTS MaxPresent = 2\n MaxArgs = 1\n"
-               " RootFixed = %s\n ReadFailCounted = %s\n DetWalk = TRUE\n" % (rf, rc))
+               " RootFixed = %s\n ReadFailCounted = %s\n DetWalk = TRUE\n LinkFollowed = FALSE\n" % (rf, rc))
         r = C.model_check("Cli", cfg, os.path.join(wd, "af-cli-" + rf + rc), workers=4, xmx="4g", timeout=900)
         expect("Cli.tla as found (%s) violates Contract" % what, (not r["ok"]) and "Invariant Contract is violated" in r["out"])
+    cfg = ("SPECIFICATION Spec\nINVARIANTS TypeOK Contract\nCHECK_DEADLOCK FALSE\nCONSTANTS MaxPresent = 2\n MaxArgs = 1\n"
+           " RootFixed = TRUE\n ReadFailCounted = TRUE\n DetWalk = TRUE\n LinkFollowed = TRUE\n")
+    r = C.model_check("Cli", cfg, os.path.join(wd, "af-cli-link"), workers=4, xmx="4g", timeout=900)
+    expect("Cli.tla with format-all following symbolic links (seeded change C15-C) violates Contract",
+           (not r["ok"]) and "Invariant Contract is violated" in r["out"])
     cost = ("SPECIFICATION Spec\nCONSTANTS Depth = 3\n Branch = 2\n B = 4\n AntiPattern = TRUE\nINVARIANTS BoundedVisits\nCHECK_DEADLOCK FALSE\n")
     r = C.model_check("Cost", cost, os.path.join(wd, "af-cost"), workers=2, xmx="2g", timeout=300)
     expect("Cost.tla with the try-then-fallback anti-pattern violates BoundedVisits", (not r["ok"]) and "BoundedVisits is violated" in r["out"])
